@@ -20,7 +20,7 @@ func init() {
 	property("C18",
 		"Static conformance of the no-crash / termination / error-location mechanisms: (a) the only reachable panic is the invalid-UTF-8 panic in the lexer and its guard implies an invalid encoding (RuneError with width 1); no unchecked type assertion, no integer division, log.Fatal only in main; (b) every token loop of the parser consumes a token on every path of an iteration and cannot continue at exhausted input (abstract evaluation with every window token = EOF, callee summaries 'errors at EOF'); every lexer loop reads a character per iteration and its guard is false at end of input; other loops are ranges or bounded counters; (c) every index/slice expression is discharged by a dominating comparison (range key, i < len, len > 0, i == len-1, next = i+1 < len) or by a reviewed exemption naming one function and operand; map updates target maps created by the same component; (d) every error returned by a repo function is returned or tested, and the failure branch returns a non-nil error (except the two environment callees whose failure is by design only logged); (e) error ranges are ordered (start token is the current or an earlier captured token) and no error is built from a synthesised or possibly unassigned token; (f) the environment-error flag only ever enables an error return or a log line, and lint construction equals normal construction with the flag off. NOT decided: stack depth for pathologically nested input, the wall-clock bound, FormatText's string-offset loop.",
 		[]string{"isLetter(0) = unicode.IsDigit(0) = isHexDigit(0) = false", "once the lexer has returned EOF it returns EOF forever (readChar at end of input leaves ch = 0 and changes no position)", "exemptions listed in /verif/exemptions.json (each names one function and operand with a reason)", "configuration values (command_config.json) are outside the property's quantifier"},
-		"C18.a", "C18.b", "C18.c", "C18.d", "C18.e", "C18.f", "C18.g", "C18.h", "C16.c", "C12.a", "C12.b", "C01.c", "C01.d", "C19.b")
+		"C18.a", "C18.b", "C18.c", "C18.d", "C18.e", "C18.f", "C18.g", "C18.h", "C18.i", "C16.c", "C12.a", "C12.b", "C01.c", "C01.d", "C19.b")
 
 	register(&Rule{ID: "C18.a", Doc: "no reachable crash construct except the guarded invalid-UTF-8 panic", Floor: 4, Run: c18a})
 	register(&Rule{ID: "C18.b", Doc: "loops terminate: progress on every path, no continuation at exhausted input", Floor: 30, Run: c18b})
@@ -28,6 +28,7 @@ func init() {
 	register(&Rule{ID: "C18.d", Doc: "errors of repo functions are propagated; failure branches return an error", Floor: 60, Run: c18d})
 	register(&Rule{ID: "C18.e", Doc: "error ranges ordered; error tokens are real tokens", Floor: 60, Run: c18e})
 	register(&Rule{ID: "C18.f", Doc: "lint mode only removes errors", Floor: 9, Run: c18f})
+	register(&Rule{ID: "C18.i", Doc: "token window vocabulary: nextToken shifts the look-ahead by one and reads one new token; each xTokenIs predicate tests the slot it is named after", Floor: 5, Run: c18i})
 	register(&Rule{ID: "C18.h", Doc: "token consumption does not depend on environment or data: successful returns reachable under the same token tests leave the window at the same place", Floor: 1, Run: c18h})
 	register(&Rule{ID: "C18.g", Doc: "lexer progress: every token arm consumes at least one character (entry test implies the reader's guard)", Floor: 5, Run: c18g})
 }
@@ -1927,4 +1928,110 @@ func lexerPositionSlice(c *Ctx, fn *ssa.Function, x, lo, hi ssa.Value) bool {
 		}
 	}
 	return true
+}
+
+// c18i: the rules above speak of the parser's token window (curToken, peekToken, peek2Token …)
+// through nextToken and the xTokenIs predicates, whose calls the term language reads as what they
+// say. Their definitions are checked here: nextToken moves every slot one place forward — the
+// slots form one chain from the lexer to curToken — and each predicate named after a slot
+// compares the type of that very slot with its argument.
+func c18i(c *Ctx) {
+	if fn := c.Fn("parser.Parser.nextToken"); fn != nil {
+		// field -> term stored into it
+		stored := map[string]string{}
+		n := 0
+		for _, b := range fn.Blocks {
+			for _, in := range b.Instrs {
+				if st, ok := in.(*ssa.Store); ok {
+					if _, t, f, ok := fieldAddrOf(st.Addr); ok && typeIs(t, "parser", "Parser") {
+						stored[f] = c.term(fn, st.Val)
+						n++
+					}
+				}
+			}
+		}
+		// follow the chain from curToken: cur <- a <- b <- … <- lexer
+		okChain := len(fn.Blocks) == 1 && n == len(stored)
+		seen := map[string]bool{}
+		cur := "curToken"
+		steps := 0
+		for okChain {
+			v, ok := stored[cur]
+			if !ok || seen[cur] {
+				okChain = false
+				break
+			}
+			seen[cur] = true
+			steps++
+			if strings.HasPrefix(v, "(*lexer.Lexer).NextToken") {
+				break
+			}
+			if !strings.HasPrefix(v, "$0.") || strings.ContainsAny(v[3:], ".![(") {
+				okChain = false
+				break
+			}
+			cur = v[3:] // the old value of the next slot (stores are in chain order, so it is still the old one)
+		}
+		okChain = okChain && steps == len(stored) && steps >= 2
+		c.Check(okChain, "nextToken/shift", c.W.FuncPos(fn), fmt.Sprintf("the %d window slots shift by one and the last takes the lexer's next token", steps), fmt.Sprintf("nextToken does not shift the token window by one (stores: %v): the parser would see tokens twice, skip them, or see them out of order", stored))
+	}
+	// expectPeek(t): advances by exactly one token and returns nil when the next token has type t;
+	// otherwise returns an error and leaves the window where it was
+	if fn := c.Fn("parser.Parser.expectPeek"); fn != nil {
+		nt := c.W.Method("parser", "Parser", "nextToken")
+		isNext := func(in ssa.Instruction) bool {
+			ci, ok := in.(ssa.CallInstruction)
+			return ok && nt != nil && callee(ci) == nt
+		}
+		okNil, okErr, bad := false, false, ""
+		for _, r := range returnsOf(fn) {
+			must := c.mustLits(fn, r.Block())
+			rr := r
+			_, without := existsPath(pathQuery{from: entry(fn), avoid: isNext, target: func(in ssa.Instruction) bool { return in == ssa.Instruction(rr) }})
+			nCalls := 0
+			for _, ci := range callsIn(fn) {
+				if isNext(ci.(ssa.Instruction)) && instrDominates(ci.(ssa.Instruction), r) {
+					nCalls++
+				}
+			}
+			switch {
+			case isSuccessReturn(r):
+				if hasLit(must, "+($0.peekToken.Type == $1)") && !without && nCalls == 1 {
+					okNil = true
+				} else {
+					bad = "returns nil without (next token has the expected type and exactly one advance)"
+				}
+			default:
+				if hasLit(must, "-($0.peekToken.Type == $1)") && nCalls == 0 {
+					okErr = true
+				} else {
+					bad = "returns an error although the type matched, or after advancing"
+				}
+			}
+		}
+		c.Check(okNil && okErr && bad == "", "expectPeek/definition", c.W.FuncPos(fn), "expectPeek advances once and succeeds exactly when the next token has the expected type", "expectPeek "+bad)
+	}
+	np := 0
+	for _, fn := range c.W.FuncsOf("parser") {
+		if isTestFunc(c.W, fn) || !strings.HasSuffix(fn.Name(), "Is") || fn.Signature.Recv() == nil {
+			continue
+		}
+		slot := strings.TrimSuffix(fn.Name(), "Is")
+		// only predicates named after an existing slot are judged
+		isSlot := false
+		if st, ok := deref(fn.Params[0].Type()).Underlying().(*types.Struct); ok {
+			for i := 0; i < st.NumFields(); i++ {
+				if st.Field(i).Name() == slot && typeIs(st.Field(i).Type(), "token", "Token") {
+					isSlot = true
+				}
+			}
+		}
+		if !isSlot {
+			continue
+		}
+		np++
+		sh := c.T(fn).testShapeOf(fn)
+		c.Check(sh != nil && sh.f == slot && sh.g == "Type" && sh.param == 1, fn.Name()+"/reads-its-slot", c.W.FuncPos(fn), fn.Name()+" compares "+slot+".Type with its argument", fn.Name()+" does not compare the type of "+slot+" with its argument (it is read as doing so wherever it is called)")
+	}
+	c.Check(np >= 3, "slot-predicates", "-", fmt.Sprintf("%d slot predicates", np), fmt.Sprintf("only %d slot predicates found", np))
 }
